@@ -994,7 +994,7 @@ impl TypedScenario for Der {
         sweep_list(der_widths(tier)).len() as u64
             + match tier {
                 Tier::Quick => 30_000,
-                Tier::Thorough => 1_500_000,
+                Tier::Thorough => 12_000_000,
             }
     }
     fn generate(&self, seed: u64, tier: Tier, i: u64) -> Plan {
@@ -1038,7 +1038,7 @@ impl TypedScenario for Rlp {
         sweep_list(&RLP_DEC_WIDTHS).len() as u64
             + match tier {
                 Tier::Quick => 30_000,
-                Tier::Thorough => 1_500_000,
+                Tier::Thorough => 12_000_000,
             }
     }
     fn generate(&self, seed: u64, tier: Tier, i: u64) -> Plan {
